@@ -208,7 +208,9 @@ def unstring_annotation(node: ast.expr, ctx:'model.Documentable', section:str='a
     """
     try:
         expr = _AnnotationStringParser(ctx).visit(node)
-    except SyntaxError as ex:
+    except (SyntaxError, ValueError, MemoryError, RecursionError) as ex:
+        # ValueError: the string cannot be handed to the parser (a lone surrogate, a NUL character);
+        # MemoryError, RecursionError: the parser gives up on too deeply nested code.
         module = ctx.module
         assert module is not None
         module.report(f'syntax error in {section}: {ex}', lineno_offset=node.lineno, section=section)
